@@ -17,6 +17,20 @@ import (
 
 func genPolicyAndInput(t *rapid.T, so *SpecOpts) *Case {
 	spec := genSpec(t, so)
+	if rapid.IntRange(0, 7).Draw(t, "patternHeavy") == 0 {
+		// several element patterns in one policy (each must keep its own meaning: flags, anchors
+		// and alternations of one expression must not bleed into another)
+		for i := rapid.IntRange(2, 4).Draw(t, "npat"); i > 0; i-- {
+			o := Op{Kind: "AllowElementsMatching", ElRe: rapid.IntRange(0, len(elRePool)-1).Draw(t, "pelre"), ValRe: -1}
+			if rapid.IntRange(0, 3).Draw(t, "pbare") == 0 {
+				o = Op{Kind: "AllowNoAttrs", Scope: "elre", ElRe: o.ElRe, ValRe: -1}
+			}
+			if rapid.IntRange(0, 2).Draw(t, "pflag") == 0 {
+				o.ElRe = 13 + rapid.IntRange(0, 3).Draw(t, "pflagged") // the expressions with inline flags / upper case
+			}
+			spec.Ops = append(spec.Ops, o)
+		}
+	}
 	m := BuildModel(spec)
 	c := &Case{Spec: spec}
 	switch k := rapid.IntRange(0, 9).Draw(t, "treeOrSoup"); {
@@ -233,6 +247,43 @@ func genC02(t *rapid.T) *Case {
 		kinds = append(kinds, "AllowAttrs")
 	}
 	kinds = append(kinds, "AllowDataAttributes", "AllowDataAttributes", "AllowNoAttrs", "AllowNoAttrs", "AllowElements")
+	switch rapid.IntRange(0, 11).Draw(t, "c02focus") {
+	case 0:
+		// forced attributes: the sandbox list is a switch-like setting (its most recent call counts)
+		spec := genSpec(t, &SpecOpts{Kinds: kinds, MaxOps: 5})
+		spec.Ops = append(spec.Ops, Op{Kind: "AllowAttrs", Attrs: []string{"src", "sandbox", "crossorigin", "id"}, Scope: "els", Names: []string{"iframe", "img"}, ValRe: -1})
+		for i := rapid.IntRange(1, 3).Draw(t, "nsbcalls"); i > 0; i-- {
+			spec.Ops = append(spec.Ops, Op{Kind: rapid.SampledFrom([]string{"RequireSandboxOnIFrame", "AllowIFrames"}).Draw(t, "sbkindop"), Vals: drawSandbox(t), ValRe: -1})
+		}
+		var sb strings.Builder
+		for i := rapid.IntRange(1, 3).Draw(t, "nif"); i > 0; i-- {
+			var toks []string
+			for j := rapid.IntRange(0, 5).Draw(t, "nsbt"); j > 0; j-- {
+				toks = append(toks, rapid.SampledFrom(sbToks).Draw(t, "sbtok"))
+			}
+			sb.WriteString(`<iframe src="http://example.com/x" sandbox="` + strings.Join(toks, " ") + `">t</iframe>`)
+		}
+		return &Case{Spec: spec, Input: BStr(sb.String()), Kind: "sandbox-focus", Ints: []int{drawStage(t, spec)}}
+	case 1:
+		// which rules govern the style attribute: the attribute allowed on a NAMED element, style
+		// rules given in another scope (pattern or global), hostile declarations in the input
+		spec := genSpec(t, &SpecOpts{Kinds: kinds, MaxOps: 4})
+		host := rapid.SampledFrom([]string{"div", "span", "my-x", "sx", "b"}).Draw(t, "shost")
+		spec.Ops = append(spec.Ops, Op{Kind: "AllowAttrs", Attrs: []string{"style", "id"}, Scope: "els", Names: []string{host}, ValRe: -1})
+		for i := rapid.IntRange(1, 2).Draw(t, "nstyleops"); i > 0; i-- {
+			o := genOp(t, "AllowStyles", &SpecOpts{StPool: []string{"color", "width", "text-align", "margin"}})
+			if rapid.IntRange(0, 2).Draw(t, "forcePattern") != 0 {
+				o.Scope, o.ElRe = "elre", rapid.SampledFrom([]int{4, 5, 6, 0, 9}).Draw(t, "selre")
+			}
+			spec.Ops = append(spec.Ops, o)
+		}
+		var sb strings.Builder
+		for i := rapid.IntRange(1, 3).Draw(t, "nst"); i > 0; i-- {
+			el := rapid.SampledFrom([]string{host, host, "div", "span", "b"}).Draw(t, "sel")
+			sb.WriteString("<" + el + ` id="i" style="` + escAttr(genStyleFrom(t, []string{"color", "width", "position", "text-align", "background-image", "margin"}), '"') + `">t</` + el + ">")
+		}
+		return &Case{Spec: spec, Input: BStr(sb.String()), Kind: "style-scope-focus", Ints: []int{drawStage(t, spec)}}
+	}
 	return genPolicyAndInput(t, &SpecOpts{Kinds: kinds, MaxOps: 12})
 }
 
